@@ -248,6 +248,12 @@ func checkC19(c *core.Check) {
 	initial := map[string]string{}
 	for _, u := range userFiles {
 		initial[u] = "user0:" + u + "\n"
+		if strings.HasSuffix(u, ".go") {
+			// a real Go file of the user's, in the same package, that binds names the generated code leaves to
+			// goimports (log, fmt, strings) to packages of its own: owned files must not pick that up
+			initial[u] = "// user0:" + u + "\npackage gen\n\nimport (\n\tfmt \"example.test/user/applog\"\n\tlog \"example.test/user/applog\"\n\tstrings \"example.test/user/applog\"\n)\n\n" +
+				"func userLog() {\n\tlog.Println(\"x\")\n\tlog.Printf(\"x\")\n\tfmt.Errorf(\"x\")\n\tfmt.Sprintf(\"x\")\n\tfmt.Sprint(1)\n\tfmt.Fprintf(nil, \"x\")\n\tstrings.Split(\"a\", \"b\")\n\tstrings.HasPrefix(\"a\", \"b\")\n\tstrings.Join(nil, \"\")\n\tstrings.TrimPrefix(\"a\", \"b\")\n\tstrings.Index(\"a\", \"b\")\n\tstrings.NewReader(\"\")\n\tstrings.EqualFold(\"\", \"\")\n\tstrings.Contains(\"\", \"\")\n}\n"
+		}
 	}
 	chains := make([][]core.GenJob, len(hists))
 	for hi, h := range hists {
